@@ -133,7 +133,11 @@ def mmExcl (ps : PState) (toks : List String) : List String × Bool :=
     let f10 := match ps.obj a, ps.obj b, reuseId with
       | some _, some (bid, _), some rid => rid == bid
       | _, _, _ => false
-    ((if uns then ["F11"] else []) ++ (if f31 then ["F31"] else []) ++ (if f10 then ["F10"] else []), true)
+    let tens := [a, b].filterMap (fun t => (ps.obj t).map (·.2))
+    let f35 := tens.any (fun t => Excl_reuseOrderFlip t reuse)
+    let f36 := tens.any (fun t => Excl_rowMajorResult t reuse.isSome uns)
+    ((if uns then ["F11"] else []) ++ (if f31 then ["F31"] else []) ++ (if f10 then ["F10"] else []) ++
+     (if f35 then ["F35"] else []) ++ (if f36 then ["F36"] else []), true)
   | _ => ([], false)
 
 /-- S: elementwise minimum / maximum (`minb x y`, both orders agree on NaN-free data). -/
